@@ -5,6 +5,7 @@ op-level scheduler interleaves their operation sequences; after every operation 
 of all views are checked on BOTH objects (non-interference)."""
 from ..core import Prop, Result
 from ..curvemachine import CurveMachine, gen_curve_ops, NAMES, NAMES_PLAIN
+from ..sched import LineScheduler
 
 
 class C14(Prop):
@@ -44,9 +45,44 @@ class C14(Prop):
             clients.append({"init": init, "ops": gen_curve_ops(g, g.randint(1, 15 if tier == "quick" else 25), names)})
         total = sum(len(c["ops"]) for c in clients)
         schedule = [st.sched.randrange(nclients) for _ in range(total * 2)]
-        return {"clients": clients, "schedule": schedule}
+        sc = {"clients": clients, "schedule": schedule}
+        if nclients > 1 and ((tier == "thorough" and st.sched.random() < 0.4) or (tier == "quick" and st.sched.random() < 0.03)):
+            sc["line"] = {"seed": st.sched.randrange(1 << 30), "prob": st.sched.choice([0.005, 0.02, 0.1])}
+        return sc
+
+    def run_line_level(self, sc):
+        """Each client edits its own LASFile on its own thread; the baton scheduler pre-empts at lasio source lines.
+        Oracle: every client's own model/view checks hold after each of its operations (non-interference)."""
+        res = Result()
+        results = [Result() for _ in sc["clients"]]
+        ms = [CurveMachine(c["init"], results[i], tag="c%d" % i) for i, c in enumerate(sc["clients"])]
+        ls = LineScheduler(sc["line"]["seed"], sc["line"]["prob"])
+
+        def body(i):
+            def fn():
+                for k, op in enumerate(sc["clients"][i]["ops"]):
+                    ms[i].apply(op, k)
+                    if results[i].violations:
+                        break
+            return fn
+        errors = ls.run([(i, body(i)) for i in range(len(ms))])
+        for i, r in enumerate(results):
+            for v in r.violations:
+                res.violate("C14.interference" if True else v["oracle"], "line-level interleaving, " + v["msg"], v["step"])
+            res.merge_counts(r.counts)
+        for cid, e in sorted(errors.items()):
+            res.violate("C14.op-raised", "[c%d] raised %s: %s under line-level interleaving" % (cid, type(e).__name__, str(e)[:200]))
+        res.count("line-level-runs")
+        res.count("preemption-points", ls.points)
+        res.count("thread-switches", ls.switches)
+        res.log = [[m.sessions() for m in ms], [[x["orig"] for x in m.L] for m in ms], ls.points, ls.switches, ls.trace_digest]
+        res.nontrivial = ls.switches > 0
+        res.events = ls.points
+        return res
 
     def run(self, sc):
+        if sc.get("line") and len(sc["clients"]) > 1:
+            return self.run_line_level(sc)
         res = Result()
         ms = [CurveMachine(c["init"], res, tag="c%d" % i) for i, c in enumerate(sc["clients"])]
         pcs = [0] * len(ms)
@@ -104,6 +140,10 @@ class C14(Prop):
         if any(sc["schedule"]):
             d = copy.deepcopy(sc)
             d["schedule"] = []
+            yield d
+        if sc.get("line"):
+            d = copy.deepcopy(sc)
+            del d["line"]
             yield d
 
 
